@@ -241,7 +241,9 @@ class Compiler:
                 return i
         raise ValueError("context is not active")
 
-    def _emit_unwind(self, target: int, drop_operands: bool = True) -> None:
+    def _emit_unwind(
+        self, target: int, drop_operands: bool = True, pending_slots: int = 0
+    ) -> None:
         """Emit what a jump undoes on its way out (for break/continue/return).
 
         target is the loop_stack index of the context the jump stays in (-1:
@@ -261,6 +263,17 @@ class Compiler:
                 if try_ctx.finalizer:
                     # The finally block runs as code of the place it is written
                     self.loop_stack = loops[: try_ctx.loop_depth]
+                    if pending_slots:
+                        # The value being returned waits on the operand stack
+                        # while the block runs: a break or continue inside the
+                        # block abandons the return and gives the value up
+                        self.loop_stack.append(
+                            LoopContext(
+                                label="\x00pending return",
+                                is_loop=False,
+                                stack_slots=pending_slots,
+                            )
+                        )
                     self.try_stack = tries[:ti]
                     self._compile_finalizer(try_ctx.finalizer)
                     self.loop_stack, self.try_stack = loops, tries
@@ -888,7 +901,7 @@ class Compiler:
             # activation go with its frame)
             if node.argument:
                 self._compile_expression(node.argument)
-                self._emit_unwind(-1, drop_operands=False)
+                self._emit_unwind(-1, drop_operands=False, pending_slots=1)
                 self._emit(OpCode.RETURN)
             else:
                 self._emit_unwind(-1, drop_operands=False)
